@@ -112,6 +112,8 @@ func dumpVerdict(ref, got vnode.Snapshot) string {
 			}
 		case "Seq:", "HashToSeq:", "LastSequence":
 			// the sequence log records the history, not the chain (judged by C26)
+		case "blockchain-":
+			// blockchain-snowchoice: the finaliser's own record (the reference node was never told anything is final)
 		default:
 			return fmt.Sprintf("chain database family %s differs from the reference node (-%d +%d ~%d)", f, c[0], c[1], c[2])
 		}
@@ -126,6 +128,14 @@ type convCase struct {
 	Order []int `json:"order"`
 	Kind  int   `json:"kind"`
 	Trunk int   `json:"trunk,omitempty"` // trunk length when it is not TrunkLen
+	Fin   *finAt `json:"finalise,omitempty"`
+}
+
+// finAt places the finaliser's verdict in a delivery: before Order[At] is delivered, block Block (which the
+// deliveries so far have put on the best chain) is declared final. The tree then grows on the genesis block.
+type finAt struct {
+	Block int `json:"block"`
+	At    int `json:"at"`
 }
 
 type convRef struct {
@@ -153,8 +163,32 @@ func judgeConv(env *Env, r *vx.Run, mode string, c convCase, blocks []*types.Blo
 	sh := c.Shape
 	n := len(blocks)
 	t := env.Fresh()
-	notes := deliver(t, blocks, c.Order, c.Kind)
-	desc := fmt.Sprintf("tree %s, delivery order %v, kind %d (refusals %v)", sh, c.Order, c.Kind, notes)
+	var notes []string
+	desc := ""
+	if c.Fin != nil {
+		notes = deliver(t, blocks, c.Order[:c.Fin.At], c.Kind)
+		fb := blocks[c.Fin.Block]
+		took, err := t.Finalise(fb.Height, fb.Hash(env.Cfg))
+		if err != nil {
+			t.Close()
+			t.Forget()
+			r.Note("finaliser verdict not recorded (case not judged): %v", err)
+			r.Count("finalise_failed_not_judged", 1)
+			return "", ""
+		}
+		if count {
+			if took {
+				r.Count("hit_verdict_taken", 1)
+			} else {
+				r.Count("hit_verdict_for_block_off_best_chain_not_taken", 1)
+			}
+		}
+		notes = append(notes, deliver(t, blocks, c.Order[c.Fin.At:], c.Kind)...)
+		desc = fmt.Sprintf("tree on genesis %s, delivery order %v with block %d (height %d) declared final before position %d, kind %d (refusals %v)", sh, c.Order, c.Fin.Block, fb.Height, c.Fin.At, c.Kind, notes)
+	} else {
+		notes = deliver(t, blocks, c.Order, c.Kind)
+		desc = fmt.Sprintf("tree %s, delivery order %v, kind %d (refusals %v)", sh, c.Order, c.Kind, notes)
+	}
 	if c.Trunk != 0 {
 		desc = fmt.Sprintf("trunk of %d blocks, ", c.Trunk) + desc
 	}
@@ -211,6 +245,7 @@ func RunConverge(r *vx.Run, mode string, maxN int, restartAll bool) {
 			n = 3
 		}
 		runConverge(r, mode, n, restartAll, TrunkLen-1, &item)
+		runFinalised(r, mode, &item)
 	}
 }
 
@@ -219,6 +254,9 @@ func runConverge(r *vx.Run, mode string, maxN int, restartAll bool, trunk int, i
 		var c convCase
 		if json.Unmarshal(raw, &c) == nil && c.Trunk != 0 {
 			trunk = c.Trunk
+		}
+		if c.Fin != nil {
+			trunk = 0
 		}
 	}
 	env, err := NewEnvLen(nil, trunk)
